@@ -652,6 +652,7 @@ func collisionTripleCase(i int, r *sg.Rng) *sem.Case {
 	c := &sem.Case{Root: root, Sig: fmt.Sprintf("collision-triple/%d/%v", i%3, ord)}
 	doc := jsonx.Obj{}
 	bad := jsonx.Obj{}
+	var linkFrom *sg.Schema
 	for k := 0; k < 3; k++ {
 		var d *sg.Schema
 		var good, wrong any
@@ -661,6 +662,14 @@ func collisionTripleCase(i int, r *sg.Rng) *sem.Case {
 			d, good, wrong = mkB(), jsonx.Obj{{K: "port", V: jsonx.N(2)}}, jsonx.Obj{{K: "host", V: "h"}}
 		}
 		key := fmt.Sprintf("p%d", k)
+		if i%2 == 0 && (i/36)%2 == 1 && k == 1 {
+			linkFrom = d
+		}
+		if linkFrom != nil && k == 2 {
+			// the second definition (which gets the first suffix) refers to the third: the third is named while the
+			// second is still being generated
+			linkFrom.Props = append(linkFrom.Props, sg.Prop{Name: "link", S: &sg.Schema{Ref: "#/$defs/" + names[2], Target: d}})
+		}
 		if i%2 == 0 {
 			root.Defs = append(root.Defs, sg.Prop{Name: names[k], S: d})
 			root.Props = append(root.Props, sg.Prop{Name: key, S: &sg.Schema{Ref: "#/$defs/" + names[k], Target: d}})
